@@ -49,6 +49,17 @@ CHECKS["C18"] = dict(
    note=TB + "; sympy trusted for the characteristic-polynomial root check; Burgers requires u!=0 (finiteness precondition).",
    ref="§6 C18")
 
+CHECKS["C16"] = dict(
+   technique="contract-based deductive verification: VCs from the ast of every registered bc_* function, reached through "
+             "model.namedBC; spec functions for total quantities, invariants, Rankine-Hugoniot; staged ghost lemmas; z3",
+   text="Proof for all admissible interior states, parameters and gamma, both sides (four sides in 2-D): each registered "
+        "boundary condition of every model returns a state meeting its definition from the statement (total pressure / "
+        "temperature, imposed or kept pressure, Riemann invariant, entropy, jump relations, normal-velocity reversal, "
+        "identity), and for every registered flux no mass or energy crosses a 'sym' wall (wall-flux lemma).",
+   note=TB + "; x**y as uninterpreted function with instantiated lemma instances of rpow_add/rpow_mul; regimes stated in "
+        "the evidence assumptions; known finding K3 (outsub_nrcbc keeps the other invariant) listed in known_findings.json.",
+   ref="§6 C16")
+
 NA = {
  "C04": "convergence of a solve at the design order under mesh refinement is a limit statement over a family of meshes "
         "(and an empirical one for Riemann problems; the reference solutions wrap the external aerokit): no pre/postcondition "
